@@ -226,6 +226,12 @@ def run_check(prop, tier="quick", seed=0, replay=None, jobs=None, cap_s=None, qu
         return run_replay(mod, prop, replay)
 
     units = list(mod.units(tier, seed))
+    flt = os.environ.get("VERIF_UNIT_FILTER")  # development aid only: "key=value,key=value"
+    if flt:
+        for kv in flt.split(","):
+            k, v = kv.split("=")
+            units = [u for u in units if str(u.get(k, (u.get("names") or {}).get(k))) == v]
+        sys.stderr.write("NOTE: unit filter %r active: %d units (development run, not a registered check)\n" % (flt, len(units)))
     if cap_s is None:
         cap_s = getattr(mod, "CAP_S", {}).get(tier, 900 if tier == "quick" else 7200)
     jobs = jobs or int(os.environ.get("VERIF_JOBS", "16"))
